@@ -269,6 +269,21 @@ fn c04_swap_whole_quick_short_in_u8() {
     whole_quick(false);
 }
 
+//@ prop=C05 tier=quick kind=hold
+//@ enc=Swap::try_new, Swap::execute, Swap::try_execute, Swap::reassign_values, SwapMarketExt::swap_impact_value, SwapMarketExt::swap_impact_amount_with_cap, PoolDelta::price_impact, MulDiv::checked_mul_div, Price::pick_price
+//@ bound=T=u8 DECIMALS=1 (UNIT 10); whole Swap::execute, lean state as in c04_swap_whole_quick_*: liquidity pool, swap impact pools of both tokens, swap impact factors (exponent 1.0), side, amount, long/short token prices symbolic; fee factors zero, no open interest, no virtual inventory, index price 1. Value bound and exact output formula on Ok (incl. zero-impact case: out == floor(in*p_in.min/p_out.max)).
+//@ timeout=2700 mem=16
+#[kani::proof]
+#[kani::unwind(1)]
+fn c05_swap_value_bound_whole_quick_u8() {
+    let mut m = market_u8_quick();
+    let p = prices((1, 1), sym::price_u8(), sym::price_u8());
+    let r = check_swap(&mut m, kani::any(), kani::any(), p, false, true);
+    kani::cover!(matches!(r, Some((o, i, _)) if i == 0 && o > 1), "zero impact swap");
+    kani::cover!(matches!(r, Some((_, i, _)) if i < 0), "negative impact");
+    kani::cover!(matches!(r, Some((_, i, d)) if i > 0 && d > 0), "positive impact capped by the impact pool");
+}
+
 /// Lean market for the cheaper whole-swap harnesses: no open interest, no virtual inventory, limits
 /// at their maximum; liquidity / swap-impact / claimable-fee pools, swap fee factors and swap impact
 /// factors (exponent 1.0) symbolic.
